@@ -48,6 +48,25 @@ def short(defname):
     return "".join(out)
 
 
+def degeneric(s):
+    """remove every balanced <...> generic-argument group that follows an identifier or `::`"""
+    out = []
+    depth = 0
+    for i, c in enumerate(s):
+        if c == "<" and (depth or (out and (out[-1].isalnum() or out[-1] in "_:"))):
+            depth += 1
+            continue
+        if depth and c == ">" and s[i - 1] != "-":
+            depth -= 1
+            continue
+        if not depth:
+            out.append(c)
+    r = "".join(out)
+    while r.endswith("::"):
+        r = r[:-2]
+    return r.replace("::::", "::")
+
+
 class Graph(object):
     """A (possibly flag-refined) view of a body's CFG. Nodes are ints; node_bb maps to MIR blocks."""
 
@@ -748,11 +767,14 @@ class Analyzer(object):
         s = s.lstrip("&")
         if s.startswith("mut "):
             s = s[4:]
-        base = s.split("<", 1)[0]
+        base = degeneric(s)
         if base in STD_VARIANTS:
             return dict(enumerate(STD_VARIANTS[base]))
-        if self.prog is not None and base in self.prog.adts:
-            a = self.prog.adts[base]
+        norm = getattr(self.prog, "_adts_norm", None) if self.prog is not None else None
+        if norm is None and self.prog is not None:
+            norm = self.prog._adts_norm = {degeneric(k): v for k, v in self.prog.adts.items()}
+        if norm is not None and base in norm:
+            a = norm[base]
             out = {}
             for i, v in enumerate(a["variants"]):
                 d = int(v.get("discr", i))
